@@ -3,11 +3,12 @@ import Midgard.Model.Rinex3Obs
 import Midgard.Model.Rinex2Obs
 import Midgard.Spec.Rinex
 import Midgard.Spec.Rinex3ObsFile
+import Midgard.Spec.Rinex2ObsFile
 
 /-! Driver for C11: `c11 parse3 <rate|-> <hex text>`, `c11 parse2 …` (the parser models),
 `c11 render3|render2 <records>` (the RINEX 3.04 / 2.11 spec renderer) and
 `c11 file3 <rate|-> <asis|stripped|padded80> <file-model tokens>` (the abstract file of the file-level theorem:
-`wf` (together with the evaluated header hypothesis `hdrOk`), `render`, the instance `readData (fileLines F) = expected rate F`, and `expected` after the post-processors). -/
+`wf`, `render`, the instance `readData (fileLines F) = expected rate F`, and `expected` after the post-processors). -/
 namespace Driver.C11
 open Midgard.Proto Midgard.Text Midgard.ChainParser Midgard.RinexObs
 
@@ -68,7 +69,8 @@ def parseRecord? (tok : String) : Option (String × List Str) :=
 
 tokens: `P:<kind>:<hex,…>` plain header record · `M:<hex>` marker name · `S:<hex sys>:<hex count>:<hex,…;hex,…>` obs types
 line by line · `E:<c>,<c>,…` epoch (year month day hour minute second flag as `hex~value`, numSat as `hex`, clk as
-`hex~value`) · `R:<hex sat>:<c>,<c>,<c>;…` satellite record (value, LLI, SSI as `hex~value`, value `nan` = absent) -/
+`hex~value`) · `X:<kind>:<hex,…>` special record of an event
+epoch (belongs to the last `E` token) · `R:<hex sat>:<c>,<c>,<c>;…` satellite record (value, LLI, SSI as `hex~value`, value `nan` = absent) -/
 section File3
 open Midgard.Spec.Rinex3ObsFile
 
@@ -110,7 +112,7 @@ def hdrRec? (tok : String) : Option HdrRec :=
 def epochHead? (tok : String) : Option Epoch :=
   match tok.splitOn "," with
   | [y, mo, d, h, mi, s, f, n, c] => do
-    pure ⟨← intCell? y, ← intCell? mo, ← intCell? d, ← intCell? h, ← intCell? mi, ← numCell? s, ← intCell? f, ← strOf n, ← cell? c, []⟩
+    pure ⟨← intCell? y, ← intCell? mo, ← intCell? d, ← intCell? h, ← intCell? mi, ← numCell? s, ← intCell? f, ← strOf n, ← cell? c, [], []⟩
   | _ => none
 
 def satRec? (sat obs : String) : Option SatRec := do
@@ -126,6 +128,10 @@ def file? (style : Style) : List String → List HdrRec → List Epoch → Optio
     | ["R", sat, obs] =>
       match eps with
       | e :: es => do file? style rest hdr ({ e with sats := (← satRec? sat obs) :: e.sats } :: es)
+      | [] => none
+    | ["X", k, cells] =>
+      match eps with
+      | e :: es => do file? style rest hdr ({ e with special := e.special ++ [(k, ← strList cells)] } :: es)
       | [] => none
     | _ => do file? style rest ((← hdrRec? tok) :: hdr) eps
 
@@ -150,11 +156,61 @@ def file3 (rate : Option Rat) (F : File) : String :=
       | .ok s' => " ".intercalate (metaTokens s'.metaD ++ dataTokens s'.data s'.timeScale)
       | .noRows => "ERR:no-rows"
       | .error e => showErr e
-  s!"wf={if F.wf && hdrOk rate F.hdr then 1 else 0} inst={if instanceHolds rate F then 1 else 0} text={hx (render F)} | {out}"
+  s!"wf={if F.wf then 1 else 0} inst={if instanceHolds rate F then 1 else 0} text={hx (render F)} | {out}"
 
 end File3
 
+/-! ### the abstract RINEX 2 file of `Spec/Rinex2ObsFile.lean`: `c11 file2 <rate|-> <style> <tokens>` with `P:` header
+tokens (every record, `TYPES2`/`TYPES2C`/`MNAME` included), `E:` epochs (two-digit year first) and `R:` satellites -/
+section File2
+
+def epoch2Head? (tok : String) : Option Midgard.Spec.Rinex2ObsFile.Epoch :=
+  match tok.splitOn "," with
+  | [y, mo, d, h, mi, s, f, n, c] => do
+    pure ⟨← intCell? y, ← intCell? mo, ← intCell? d, ← intCell? h, ← intCell? mi, ← numCell? s, ← intCell? f, ← strOf n, ← cell? c, []⟩
+  | _ => none
+
+def file2? (style : Midgard.Spec.Rinex3ObsFile.Style) :
+    List String → List (String × List Str) → List Midgard.Spec.Rinex2ObsFile.Epoch → Option Midgard.Spec.Rinex2ObsFile.File
+  | [], hdr, eps => some ⟨hdr.reverse, (eps.map fun e => { e with sats := e.sats.reverse }).reverse, style⟩
+  | tok :: rest, hdr, eps =>
+    match tok.splitOn ":" with
+    | ["E", e] => do file2? style rest hdr ((← epoch2Head? e) :: eps)
+    | ["R", sat, obs] =>
+      match eps with
+      | e :: es => do
+        let os ← (if obs = "" then some [] else (obs.splitOn ";").mapM obs?)
+        file2? style rest hdr ({ e with sats := ⟨← strOf sat, os⟩ :: e.sats } :: es)
+      | [] => none
+    | ["P", k, cells] => do file2? style rest ((k, ← strList cells) :: hdr) eps
+    | _ => none
+
+def instance2Holds (rate : Option Rat) (F : Midgard.Spec.Rinex2ObsFile.File) : Bool :=
+  match readData Midgard.Rinex2Obs.headerParser Midgard.Rinex2Obs.obsParser Midgard.Rinex2Obs.resetCache
+          (Midgard.Spec.Rinex2ObsFile.fileLines F) true 0 { rate := rate },
+        Midgard.Spec.Rinex2ObsFile.expected rate F with
+  | .ok a, .ok b => a == b
+  | .error a, .error b => a == b
+  | _, _ => false
+
+def file2 (rate : Option Rat) (F : Midgard.Spec.Rinex2ObsFile.File) : String :=
+  let out := match Midgard.Spec.Rinex2ObsFile.expected rate F with
+    | .error e => showErr e
+    | .ok s =>
+      match Midgard.Rinex2Obs.finish s with
+      | .ok s' => " ".intercalate (metaTokens s'.metaD ++ dataTokens s'.data s'.timeScale)
+      | .noRows => "ERR:no-rows"
+      | .error e => showErr e
+  s!"wf={if F.wf then 1 else 0} inst={if instance2Holds rate F then 1 else 0} text={hx (Midgard.Spec.Rinex2ObsFile.render F)} | {out}"
+
+end File2
+
 def handle : List String → Option String
+  | "c11" :: "file2" :: r :: st :: toks => do
+    let rate ← parseRate? r
+    let style ← style? st
+    let F ← file2? style toks [] []
+    pure (file2 rate F)
   | "c11" :: "file3" :: r :: st :: toks => do
     let rate ← parseRate? r
     let style ← style? st
